@@ -415,6 +415,32 @@ def h_reference_units(eng):
         eng.prove(len(seen) == 1 and Eq(seen[0], r0), f"reference-units:{ret}:{ua},{ub}:dependent-argument-value")
 
 
+def h_array_defaults(eng):
+    """a parameter whose default value is an array (or any object with element-wise ==) is
+    filled in like any other default"""
+    import numpy as np
+
+    ureg = regs.float_default()
+    seen = []
+
+    @ureg.wraps("meter", ("meter", None))
+    def f(x, w=np.array([1.0, 2.0])):
+        seen.append((x, w))
+        return x
+
+    @ureg.check("[length]", None)
+    def g(x, w=np.array([1.0, 2.0])):
+        return x
+
+    for label, fn in (("wraps", lambda: f(ureg.Quantity(300.0, "centimeter"))), ("check", lambda: g(ureg.Quantity(300.0, "centimeter")))):
+        try:
+            r = fn()
+            eng.prove(abs(r.to("meter").magnitude - 3.0) < 1e-12, f"array-default:{label}:called")
+        except ValueError:
+            eng.fail(f"array-default:{label}:ambiguous-truth-value", stop=False)
+    eng.prove(len(seen) == 1 and abs(seen[0][0] - 3.0) < 1e-12 and list(seen[0][1]) == [1.0, 2.0], "array-default:wraps:default-filled-in")
+
+
 def h_reentrant(eng):
     """one decorator object, used re-entrantly: a wrapped function that calls itself (or a sibling
     made by the same ureg.wraps(...) object) with arguments in other units still gets its own
@@ -553,5 +579,7 @@ def cases(tier, seed):
     out.append(Case("H17.check", "with_context", M, "h_with_context", {}, validate=1))
     out.append(Case("H17.wraps", "fraction-registry-exact", M, "h_exact_types", {}, kind="conc"))
     out.append(Case("H17.wraps", "reentrant", M, "h_reentrant", {}, validate=1))
+    out.append(Case("H17.wraps", "array-defaults", M, "h_array_defaults", {}, kind="conc"))
     out.append(Case("H17.wraps", "reference-units", M, "h_reference_units", {}, validate=1))
+    out.append(Case("H17.obs", "observed", "pvlib.harness.observed", "h_c17", {}, kind="conc"))
     return out
